@@ -50,6 +50,12 @@ def conventional_plus(r, idx):
     mk.field("parent", 1, "string", required=True).field("thing", 2, lkr.fqn, required=True).field("thing_id", 3, "string", required=True)
     svc.rpc("MakeThing", mk.fqn, lkr.fqn, http=("post", "/v1/{parent=projects/*}/things"), body="thing", sigs=["parent,thing,thing_id"])
     feats.append("required-query-params")
+    # flattened map / repeated / message arguments of a same-package request
+    tg = main.message("TagThingRequest")
+    tg.field("name", 1, "string").map_field("labels", 2, "string", "string").field("tags", 3, "string", repeated=True)
+    tg.field("origin", 4, lkr.fqn).map_field("weights", 5, "string", "int32")
+    svc.rpc("TagThing", tg.fqn, lkr.fqn, http=("post", "/v1/{name=things/*}:tag"), body="*", sigs=["name,labels,tags", "name,origin,weights"])
+    feats.append("flattened-map-and-repeated")
     if k in (0, 2):
         # required fields of several kinds + reserved-word fields, custom :verb method, deprecated, keyword-named rpc
         req = main.message("CheckThingRequest")
